@@ -329,7 +329,7 @@ func removePattern(str, pat string, fromEnd, shortest bool) string {
 	switch {
 	case fromEnd && shortest:
 		// use .* to get the right-most shortest match
-		expr = ".*(" + expr + ")$"
+		expr = "(?s).*(" + expr + ")$"
 	case fromEnd:
 		// simple suffix
 		expr = "(" + expr + ")$"
